@@ -620,8 +620,71 @@ func (x *Explorer) assign(lhs, rhs ast.Expr, stmt ast.Node, st *State) {
 			st.Facts[k] = false
 		}
 	}
+	x.copyFactsToParam(lhs, rhs, st)
 	if x.Hooks.Assign != nil {
 		x.Hooks.Assign(x, lhs, rhs, stmt, st)
+	}
+}
+
+// copyFactsToParam: the binding `p := arg` of a spliced helper's parameter that is bound to different
+// arguments at different call sites (so that it cannot be rendered as its argument): what is known about
+// the argument at this moment holds for the parameter until it is assigned again.  Each fact that
+// mentions the argument is duplicated with the parameter in its place.
+func (x *Explorer) copyFactsToParam(lhs, rhs ast.Expr, st *State) {
+	id, ok := Unparen(lhs).(*ast.Ident)
+	if !ok || rhs == nil || x.sp == nil {
+		return
+	}
+	v, ok := ObjOf(x.Fn.Info(), id).(*types.Var)
+	if !ok || len(x.sp.binds[v]) < 2 || x.inlineDef(v) != nil {
+		return
+	}
+	isBinding := false
+	for _, a := range x.sp.binds[v] {
+		if a == rhs {
+			isBinding = true
+		}
+	}
+	if !isBinding {
+		return
+	}
+	lk, ok1 := x.key(Unparen(lhs))
+	rk, ok2 := x.key(Unparen(rhs))
+	if !ok1 || !ok2 || lk == rk || len(rk) < 2 {
+		return
+	}
+	type add struct {
+		k string
+		v bool
+		m *atomMeta
+	}
+	var adds []add
+	for fk, fv := range st.Facts {
+		if !strings.Contains(fk, rk) {
+			continue
+		}
+		m := x.atoms[fk]
+		if m == nil {
+			continue
+		}
+		nk := strings.ReplaceAll(fk, rk, lk)
+		if _, has := st.Facts[nk]; has {
+			continue
+		}
+		nm := &atomMeta{mentions: map[string]bool{lk: true}, stable: m.stable, fields: m.fields, other: m.other, scopes: m.scopes}
+		for d := range m.mentions {
+			nm.mentions[d] = true
+		}
+		if sc := v.Parent(); sc != nil && sc.Pos().IsValid() {
+			nm.scopes = append(append([][2]token.Pos{}, m.scopes...), [2]token.Pos{sc.Pos(), sc.End()})
+		}
+		adds = append(adds, add{nk, fv, nm})
+	}
+	for _, a := range adds {
+		if _, known := x.atoms[a.k]; !known {
+			x.atoms[a.k] = a.m
+		}
+		st.Facts[a.k] = a.v
 	}
 }
 
